@@ -16,29 +16,46 @@ import (
 func rulePanicInventory(c *chk.Ctx) {
 	stop := stopFunc(c, "server")
 	start := startFunc(c)
+	// a role is held by a function or by a private helper of it (not by a closure that may run
+	// later on another goroutine)
+	inRole := func(root, f *ssa.Function) bool {
+		return root != nil && (f == root || (f.Parent() == nil && c.P.InExt(root, f)))
+	}
+	var slotRecv []*ssa.Function
+	for _, g := range pkgFuncs(c, c.M.Pkg) {
+		if g.Parent() != nil {
+			continue
+		}
+		ir.Instrs(g, func(ins ssa.Instruction) {
+			if u, ok := ins.(*ssa.UnOp); ok && u.Op == token.ARROW && chk.LoadsField(u.X, c.M.RCh) {
+				slotRecv = append(slotRecv, g)
+			}
+		})
+	}
 	roleOf := func(f *ssa.Function) string {
 		r := ir.Root(f)
 		switch {
-		case r == stop && f == r:
+		case inRole(stop, f):
 			return "invariant in the stop function: table emptied by the loop that dominates the check"
 		case r == start && f == r:
 			return "documented API misuse: Start while running (this is the guard RUN.startOnce relies on)"
 		}
 		// the exported waiter of the lifetime group
 		for _, w := range waitSites(c, chk.PathOfVar(c.M.Server, c.M.SWg).String()) {
-			if w.Parent() == r && ir.Exported(r) && f == r {
+			if ir.Exported(w.Parent()) && inRole(w.Parent(), f) {
 				return "invariant: queue empty at shutdown — discharged by RUN.guard (no insert after stop) and RUN.drain"
 			}
 		}
-		// the slot receiver
-		recvs := false
-		ir.Instrs(r, func(ins ssa.Instruction) {
-			if u, ok := ins.(*ssa.UnOp); ok && u.Op == token.ARROW && chk.LoadsField(u.X, c.M.RCh) {
-				recvs = true
+		// the slot receiver (or the helper it shares the received message with)
+		for _, g := range slotRecv {
+			if inRole(g, f) || inRole(c.P.RegionRoot(g), f) {
+				return "invariant: id mismatch — discharged by TOKEN.keyed"
 			}
-		})
-		if recvs && f == r {
-			return "invariant: id mismatch — discharged by TOKEN.keyed"
+			for _, s := range c.P.Callers(g) {
+				if inRole(s.Caller, f) && !ir.Exported(s.Caller) {
+					return "invariant: id mismatch — discharged by TOKEN.keyed"
+				}
+			}
 		}
 		// constructors: exported package-level functions that build a Server, and the handler package's
 		// exported constructors (construction-time API misuse)
